@@ -10,6 +10,7 @@ import (
 
 	"github.com/consensys/gnark/frontend"
 	"github.com/consensys/gnark/std/math/bits"
+	"github.com/consensys/gnark/std/math/bitslice"
 	"github.com/consensys/gnark/std/math/cmp"
 	"github.com/consensys/gnark/std/selector"
 )
@@ -231,9 +232,21 @@ func applyOp(api frontend.API, op string, pr []int, a []frontend.Variable) ([]fr
 		return selector.Slice(api, a[0], a[1], a[2:]), nil
 	case "partition":
 		return selector.Partition(api, a[0], pr[0] != 0, a[1:]), nil
+	// ---- std/math/bitslice (on an API that offers no commitment, so that the range checks are the
+	// plain bit-decomposition ones; the commit-based checker is C13's subject)
+	case "bitslice":
+		var opts []bitslice.Option
+		if pr[1] > 0 {
+			opts = append(opts, bitslice.WithNbDigits(pr[1]))
+		}
+		lo, hi := bitslice.Partition(noCommitAPI{api}, a[0], uint(pr[0]), opts...)
+		return []frontend.Variable{lo, hi}, nil
 	}
 	return nil, fmt.Errorf("unknown op %s", op)
 }
+
+// noCommitAPI hides the builder's Commit method: rangecheck.New then returns the plain checker
+type noCommitAPI struct{ frontend.API }
 
 // ---------------------------------------------------------------------------
 // program enumeration
@@ -593,6 +606,22 @@ func stdPrograms() []Prog {
 			mk(fmt.Sprintf("slice_%d", n), tier, Step{Op: "slice"}, rep("sec", n+2), n)
 		}
 	}
+	// bitslice.Partition: split x nbDigits (0 = not given; 6 = the field's bit length; 8 = wider than the field)
+	for _, nd := range []int{0, 3, 4, 5, 6, 8} {
+		for split := 0; split <= 5; split++ {
+			if nd > 0 && nd < 6 && split >= nd {
+				continue
+			}
+			tier := "quick"
+			if nd == 8 || (nd == 4 && split > 1) {
+				tier = "thorough"
+			}
+			mk(fmt.Sprintf("bitslice_%d_%d", split, nd), tier, Step{Op: "bitslice", Params: []int{split, nd}}, []string{"sec"}, 2)
+		}
+	}
+	mk("bitslice_2_0.c46", "quick", Step{Op: "bitslice", Params: []int{2, 0}}, []string{"c46"}, 2)
+	mk("bitslice_2_5.c5", "quick", Step{Op: "bitslice", Params: []int{2, 5}}, []string{"c5"}, 2)
+	mk("bitslice_1_3.lin", "quick", Step{Op: "bitslice", Params: []int{1, 3}}, []string{"lin"}, 2)
 	mk("mux_3c", "quick", Step{Op: "mux"}, []string{"sec", "c5", "sec", "c46"}, 1)
 	mk("mux_csel", "quick", Step{Op: "mux"}, []string{"c2", "sec", "sec", "sec"}, 1)
 	mk("map_2ckeys", "quick", Step{Op: "map", Params: []int{2}}, []string{"sec", "c5", "c46", "sec", "sec"}, 1)
